@@ -12,6 +12,11 @@ footprint, so that the harness can compare it with what the real code does:
 * `accput k v` → the same line for the `Put` (`writes=` lists the written locations, sorted, `pos:v<slot>` /
   `pos:k<slot>` / `pos:n` / `gen` / `size`), then ` mem=ok|diff`: whether the memory the machine leaves
   holds exactly the tree the functional `put` produces; the state becomes that tree.
+* `accrange lo hi n` / `accrrange lo hi n` (bounds as in `driver tree`: `u`, `i<k>`, `e<k>`) → the range reader
+  `Range(lo, hi)` / `RangeReverse(lo, hi)` followed by up to `n` calls of `Next`, run alone:
+  `keys=<second arguments of the comparator calls: stored keys compared by find, the key the seek landed on, the bound key
+  once per in-range test> vals=<pos:slot of every value slot read> items=<k:v yielded> writes=- ret=<end|more>` and
+  ` func=ok|diff`: whether the items are what the functional model's `range` / `rangeReverse` + `iterNext` yield.
 
 `pos` is the pre-order position of the node (what the hook dump numbers nodes by). -/
 namespace Juniper.Driver.TreeAccess
@@ -45,6 +50,7 @@ def showLoc (nodes : Array (Node Int Int)) : Loc → String
   | .node id (.key i) => s!"{posOf nodes id}:k{i}"
   | .node id (.val i) => s!"{posOf nodes id}:v{i}"
   | .node id (.child i) => s!"{posOf nodes id}:c{i}"
+  | .node id .parent => s!"{posOf nodes id}:p"
 
 def showRes : PC Int Int → String
   | .done (.val (some v)) => toString v
@@ -53,6 +59,8 @@ def showRes : PC Int Int → String
   | .done .unit => "ok"
   | .done .crash => "crash"
   | .done .unmodelled => "unmodelled"
+  | .done (.vals _) => "vals"
+  | .it .fin st => if st.left == 0 then "more" else "end"
   | _ => "diverge"
 
 def dedup (l : List String) : List String :=
@@ -91,13 +99,23 @@ def footprint (s : St) (op : Op Int Int) : String × Mem Int Int :=
     match pa.1 with
     | .key x i => some (keyAt nodes x i)
     | .ikey x i => some (keyAt nodes x i)
-    | .lostKey x i => some (keyAt nodes x i)
+    | .it (.fkey x i) _ => some (keyAt nodes x i)
+    | .it .sgen st =>
+      (match op, st.k with
+        | .scan _ .first _ _ _, _ => none
+        | .scan _ .last _ _ _, _ => none
+        | .scan _ _ _ _ _, some k => some (toString k)
+        | _, _ => none)
+    | .it .nGen st =>
+      (match op, st.curr with
+        | .scan _ _ _ (some (_, key)) _, some _ => some (toString key)
+        | _, _ => none)
     | _ => none
   -- the value slot whose content is returned
   let vals := r.1.filterMap fun pa =>
     match pa.1 with
     | .run (.readVal :: _) _ rg _ => rg.curr.map fun x => s!"{posOf nodes x}:{rg.idx}"
-    | .itVal x i => some s!"{posOf nodes x}:{i}"
+    | .it .nVal st => st.curr.map fun x => s!"{posOf nodes x}:{st.i.toNat}"
     | _ => none
   let writes := sortStrings (dedup (r.1.filterMap fun pa =>
     match pa.2 with
@@ -127,6 +145,32 @@ def step (s : St) (toks : List String) : St × String :=
     match put s.cmp s.t (intOr k) (intOr v) with
     | some t => ({ s with t := t }, fp.1 ++ (if memAgrees fp.2 t then " mem=ok" else " mem=diff"))
     | none => ({ s with dead := true }, "crash")
+  | [cmd, lo, hi, n] =>
+    if cmd == "accrange" || cmd == "accrrange" then
+      let rev := cmd == "accrrange"
+      match Juniper.Driver.Tree.parseBound lo, Juniper.Driver.Tree.parseBound hi with
+      | some l, some h =>
+        match (scanOf rev l h (natOr n 0) : Option (Op Int Int)) with
+        | none => (s, "ret=panic")
+        | some op =>
+          let nodes := preorder s.t.root #[]
+          let r := soloTrace s.cmp op 1000000 (memOf s.t) (start op) []
+          let fp := (footprint s op).1
+          let items := match r.2.2 with
+            | .it .fin st => st.out
+            | _ => []
+          -- the functional model: `range` / `rangeReverse`, then `iterNext` up to `n` times
+          let fit := if rev then rangeReverse s.cmp s.t l h else range s.cmp s.t l h
+          let fitems := match fit with
+            | some it => (drain s.cmp s.t (natOr n 0) it)
+            | none => []
+          let showI := fun (l : List (Int × Option Int)) =>
+            if l.isEmpty then "-" else joinWith "," (l.map fun kv => s!"{kv.1}:{Juniper.Driver.Tree.showOptV kv.2}")
+          let _ := nodes
+          (s, (fp.replace "val=" "vals=").replace " ret=" s!" items={showI items} ret=" ++
+            (if items == fitems then " func=ok" else " func=diff"))
+      | _, _ => (s, "bad-op")
+    else (s, "bad-op")
   | _ => (s, "bad-op")
 
 def handler : Handler := { σ := St, init := {}, step := step }
